@@ -633,7 +633,7 @@ func gen(g *core.G) {
 			g.Emit(callLine(t, args, blk))
 		}
 	}
-	// malformed stream: unknown aliases, empty tables, empty variants/enums
+	// malformed stream: unknown aliases, empty tables, aliases over undeclared names
 	for i := 0; i < 100*g.Scale; i++ {
 		t := randTable(r)
 		switch r.Intn(3) {
@@ -644,8 +644,14 @@ func gen(g *core.G) {
 				t.ds[0].ops[0].t = &ty{tag: "al", name: "Nosuch"}
 			}
 		default:
+			// an alias over an undeclared name
+			t.aliases = append(t.aliases, struct {
+				name string
+				t    *ty
+			}{"Z", &ty{tag: "arr", kids: []*ty{{tag: "al", name: "Nosuch"}}}})
+			t.env["Z"] = t.aliases[len(t.aliases)-1].t
 			if len(t.ds[0].ops) > 0 && t.ds[0].ops[0].t != nil {
-				t.ds[0].ops[0].t = &ty{tag: "var"}
+				t.ds[0].ops[0].t = &ty{tag: "al", name: "Z"}
 			}
 		}
 		args, blk := randTable(r).randArgs(r)
